@@ -6,7 +6,8 @@ Layer T2 facts for C12 (xrspatial/classify.py) -> lean/XrsVerif/Gen/ClassifyFact
                  recognised.  The Lean model `Bin.searchS` *interprets* this value, and
                  `Props/C12.lean: shape_is_canonical` requires it to be the skeleton the theorems are proved for.
 * `jenksBreakDtype`         dtype of the `kclass` array the Jenks breaks are stored in
-* `nbLastForcedJenks/Fallback`  `bins[-1] = max_data` present in the Jenks branch / the too-few-unique-values branch
+* `nbLastForcedJenks/Fallback`  the raster maximum is the last bin in the Jenks branch (`bins[-1] = max_data`) /
+                            is added to the distinct sample values in the too-few-unique-values branch
 * `quantileGridIndexed`     the percentile grid is built from an integer `arange` (exactly k points) and its
                             last point is set to 100.0 unconditionally
 * `eqIntLastForced`         `cuts[-1] = max_data` is executed on every path of `_run_equal_interval`
@@ -202,15 +203,17 @@ def sets_last(stmts, arr, value):
 
 
 def natural_break_facts(mod):
+    """Jenks branch: `bins[-1] = max_data`; fallback branch: `bins = np.unique(np.append(uv, max_data))`
+    followed by `uvk = len(bins)` (or a `bins[-1] = max_data` common to both branches)"""
     f = find_func(mod, "_run_natural_break")
     jenks = fallback = False
     if f is not None:
         for n in f.body:
             if isinstance(n, ast.If) and ast.unparse(n.test) == "uvk < k":
-                fallback = sets_last(n.body, "bins", "max_data")
+                srcs = [ast.unparse(s) for s in n.body]
+                fallback = ("bins = np.unique(np.append(uv, max_data))" in srcs and "uvk = len(bins)" in srcs
+                            and srcs.index("bins = np.unique(np.append(uv, max_data))") < srcs.index("uvk = len(bins)"))
                 jenks = sets_last(n.orelse, "bins", "max_data")
-        if sets_last(f.body, "bins", "max_data"):
-            jenks = fallback = True
     return jenks, fallback
 
 
@@ -274,7 +277,7 @@ def generate(repo):
         f'def jenksBreakDtype : String := "{kdt}"',
         "/-- dtype of the Jenks matrices -/",
         f'def jenksMatrixDtype : String := "{mdt}"',
-        "/-- `bins[-1] = max_data` in the Jenks branch / in the too-few-unique-values branch of `_run_natural_break` -/",
+        "/-- `_run_natural_break`: `bins[-1] = max_data` in the Jenks branch / `bins = unique(append(uv, max_data))` in the too-few-unique-values branch -/",
         f"def nbLastForcedJenks : Bool := {b(nbj)}",
         f"def nbLastForcedFallback : Bool := {b(nbf)}",
         "/-- `_run_quantile` builds exactly k percentile points `arange(1, k + 1) * w` and sets the last to 100.0 -/",
